@@ -134,6 +134,27 @@ theorem regex_helper (x y : Option Json) (sub : Bool) :
   | some a, none => cases a <;> rfl
   | some a, some b => cases a <;> cases b <;> rfl
 
+theorem lengthFn_patShape (d : Data) : (lengthFn d).patShape := by
+  cases d with
+  | ref p => cases h : p.inner <;> simp [lengthFn, h, di64, Data.patShape]
+  | value v => cases v <;> simp [lengthFn, di64, Data.patShape]
+  | refs ps => simp [lengthFn, di64, Data.patShape]
+  | nothing => simp [lengthFn, Data.patShape]
+theorem countFn_patShape (d : Data) : (countFn d).patShape := by
+  cases d <;> simp [countFn, di64, Data.patShape]
+theorem valueFn_patShape (d : Data) (hd : d.shaped) : (valueFn d).patShape := by
+  cases d with
+  | ref p => simp [valueFn, Data.patShape]
+  | value v => exact absurd hd (by simp)
+  | nothing => simp [valueFn, Data.patShape]
+  | refs ps =>
+    match ps with
+    | [] => simp [valueFn, Data.patShape]
+    | [q] => simp [valueFn, Data.patShape]
+    | _ :: _ :: _ => simp [valueFn, Data.patShape]
+theorem patShape_of_sq (d : Data) (h : d.sqShape) : d.patShape := by
+  cases d <;> simp_all [Data.sqShape, Data.patShape]
+
 mutual
 theorem sel_spec : ∀ (s : Selector) (d : Data), okSel s → d.shaped →
     (s.process E root d).shaped ∧ nodesOf (s.process E root d) = (nodesOf d).flatMap (Spec.sel E root s)
@@ -315,13 +336,13 @@ theorem fnLogical_spec : ∀ (f : TestFunction) (p : Ptr), okFnLogical f →
       have hf' : okArgValue a ∧ okArgValue b := by simpa [okFnLogical] using hf
       obtain ⟨ha1, ha2⟩ := argValue_spec a p hf'.1
       obtain ⟨hb1, hb2⟩ := argValue_spec b p hf'.2
-      simp only [TestFunction.process, Spec.fnLogical, toStrD_spec _ ha1, toStrD_spec _ hb1, ha2, hb2]
+      simp only [TestFunction.process, Spec.fnLogical, toPatD_of_patShape _ (arg_patShape b p hf'.2), toStrD_spec _ ha1, toStrD_spec _ hb1, ha2, hb2]
       exact regex_helper E _ _ false
   | .search a b, p, hf => by
       have hf' : okArgValue a ∧ okArgValue b := by simpa [okFnLogical] using hf
       obtain ⟨ha1, ha2⟩ := argValue_spec a p hf'.1
       obtain ⟨hb1, hb2⟩ := argValue_spec b p hf'.2
-      simp only [TestFunction.process, Spec.fnLogical, toStrD_spec _ ha1, toStrD_spec _ hb1, ha2, hb2]
+      simp only [TestFunction.process, Spec.fnLogical, toPatD_of_patShape _ (arg_patShape b p hf'.2), toStrD_spec _ ha1, toStrD_spec _ hb1, ha2, hb2]
       exact regex_helper E _ _ true
   | .custom name args, p, hf => by
       have h := customArgs_spec args p (by simpa [okFnLogical] using hf)
@@ -366,6 +387,29 @@ theorem argNodes_spec : ∀ (a : FnArg) (p : Ptr), okArgNodes a →
   | .test (.fn _), _, ha => by simp [okArgNodes] at ha
   | .lit _, _, ha => by simp [okArgNodes] at ha
   | .filter _, _, ha => by simp [okArgNodes] at ha
+theorem arg_patShape : ∀ (b : FnArg) (p : Ptr), okArgValue b → (b.process E root (.ref p)).patShape
+  | .lit l, p, hb => by
+      cases l <;> simp_all [FnArg.process, literalValue, Data.patShape, okArgValue, okLit]
+  | .test (.rel ss), p, hb => by
+      have hb' : Spec.isSingularSegs ss = true ∧ okSegs ss := by simpa [okArgValue] using hb
+      have hsq := singular_shape E root ss (.ref p) hb'.1 trivial
+      simpa [FnArg.process, Test.process] using patShape_of_sq _ hsq
+  | .test (.abs ss), p, hb => by
+      have hb' : Spec.isSingularSegs ss = true ∧ okSegs ss := by simpa [okArgValue] using hb
+      have hsq := singular_shape E root ss (rootData root) hb'.1 trivial
+      simpa [FnArg.process, Test.process] using patShape_of_sq _ hsq
+  | .test (.fn (.length a)), p, _ => by
+      simpa [FnArg.process, Test.process, TestFunction.process] using lengthFn_patShape _
+  | .test (.fn (.count a)), p, _ => by
+      simpa [FnArg.process, Test.process, TestFunction.process] using countFn_patShape _
+  | .test (.fn (.value a)), p, hb => by
+      have ha : okArgNodes a := by simpa [okArgValue, okFnValue] using hb
+      obtain ⟨h1, _⟩ := argNodes_spec a p ha
+      simpa [FnArg.process, Test.process, TestFunction.process] using valueFn_patShape _ h1
+  | .test (.fn (.match _ _)), _, hb => by simp [okArgValue, okFnValue] at hb
+  | .test (.fn (.search _ _)), _, hb => by simp [okArgValue, okFnValue] at hb
+  | .test (.fn (.custom _ _)), _, hb => by simp [okArgValue, okFnValue] at hb
+  | .filter _, _, hb => by simp [okArgValue] at hb
 theorem customArgs_spec : ∀ (args : List FnArg) (p : Ptr), okArgsCustom args →
     FnArg.values E root args (.ref p) = Spec.customArgs E root (toN p) args
   | [], p, _ => by simp [FnArg.values, Spec.customArgs]
